@@ -47,7 +47,7 @@ const STORE_SETS: &[&[&str]] = &[
     &["acc", "auth", "authz", "bank"],
 ];
 
-const AMOUNTS: &[u64] = &[1000, 1000, 250, 7, 18446744073709551615, 30];
+const AMOUNTS: &[u64] = &[1000, 1000, 250, 7, 18446744073709551615, 30, 1000];
 
 #[derive(Clone, Debug, Serialize, Deserialize, PartialEq)]
 struct WorldCfg {
@@ -207,14 +207,17 @@ enum Tamper {
     /// rewrites ProofOp.key (1) and the existence proof's key (2) to the expected key
     OtherAccountProof { other: usize, rekey: u8 },
     // path steps (site = existence proof: 0.. in order op0 [exist | left, right], op1 exist)
-    StepFlip { site: usize, step: usize, wh: Where, byte: usize },
+    StepFlip { site: usize, step: usize, wh: Where, byte: usize, bit: u8 },
     StepDrop { site: usize, step: usize },
     StepDup { site: usize, step: usize },
     StepSwap { site: usize, step: usize },
     StepHashOp { site: usize, step: usize },
     StepExtraRoot { site: usize },
     // leaf op
-    LeafPrefixFlip { site: usize, byte: usize },
+    LeafPrefixFlip { site: usize, byte: usize, bit: u8 },
+    /// the op's proof wrapped into a batch behind a decoy entry (another account's proof);
+    /// `with_target` = the genuine proof is in the batch too; `compressed` = sent compressed
+    BatchWrap { op: usize, with_target: bool, compressed: bool },
     LeafPrefixMarker { site: usize },
     LeafPrehashValue { site: usize },
     LeafPrehashKey { site: usize },
@@ -379,7 +382,7 @@ fn apply(t: &Tamper, p: &mut Parts, w: &World, key: &[u8], seed: u64, cfg: &Worl
             p.ops.as_mut().unwrap()[0] = ("ics23:iavl".into(), op_key, OpData::Proof(commitment_exist(e)));
             true
         }
-        Tamper::StepFlip { site, step, wh, byte } => {
+        Tamper::StepFlip { site, step, wh, byte, bit } => {
             let mut s = sites(p);
             let Some(e) = s.get_mut(*site) else { return false };
             let Some(st) = e.path.get_mut(*step) else { return false };
@@ -388,7 +391,7 @@ fn apply(t: &Tamper, p: &mut Parts, w: &World, key: &[u8], seed: u64, cfg: &Worl
                 Where::Suffix => &mut st.suffix,
             };
             let Some(b) = buf.get_mut(*byte) else { return false };
-            *b ^= 0x04;
+            *b ^= 1 << *bit;
             true
         }
         Tamper::StepDrop { site, step } => {
@@ -434,12 +437,38 @@ fn apply(t: &Tamper, p: &mut Parts, w: &World, key: &[u8], seed: u64, cfg: &Worl
             e.path.push(extra);
             true
         }
-        Tamper::LeafPrefixFlip { site, byte } => {
+        Tamper::BatchWrap { op, with_target, compressed } => {
+            let decoy_idx = match target_idx {
+                Some(0) if w.bank.leaves.len() > 1 => 1,
+                _ => 0,
+            };
+            if Some(decoy_idx) == target_idx {
+                return false; // no other account to use as decoy
+            }
+            let Some(ops) = p.ops.as_mut() else { return false };
+            let Some(o) = ops.get_mut(*op) else { return false };
+            let OpData::Proof(c) = &o.2 else { return false };
+            let mut entries = vec![ics23::BatchEntry { proof: Some(ics23::batch_entry::Proof::Exist(w.bank.exist(decoy_idx))) }];
+            if *with_target {
+                entries.push(match c.proof.clone() {
+                    Some(Proof::Exist(e)) => ics23::BatchEntry { proof: Some(ics23::batch_entry::Proof::Exist(e)) },
+                    Some(Proof::Nonexist(n)) => ics23::BatchEntry { proof: Some(ics23::batch_entry::Proof::Nonexist(n)) },
+                    _ => return false,
+                });
+            }
+            let mut batch = CommitmentProof { proof: Some(Proof::Batch(ics23::BatchProof { entries })) };
+            if *compressed {
+                batch = ics23::compress(&batch).expect("compress");
+            }
+            o.2 = OpData::Proof(batch);
+            true
+        }
+        Tamper::LeafPrefixFlip { site, byte, bit } => {
             let mut s = sites(p);
             let Some(e) = s.get_mut(*site) else { return false };
             let Some(l) = e.leaf.as_mut() else { return false };
             let Some(b) = l.prefix.get_mut(*byte) else { return false };
-            *b ^= 0x04;
+            *b ^= 1 << *bit;
             true
         }
         Tamper::LeafPrefixMarker { site } => {
@@ -652,7 +681,7 @@ fn catalogue(thorough: bool) -> Vec<Tamper> {
         t.push(Tamper::ValueDigit { pos });
     }
     t.extend([Tamper::ValueAppendDigit, Tamper::ValueDropLastDigit, Tamper::ValueLeadingZero, Tamper::ValueEmpty]);
-    for other in 0..6 {
+    for other in 0..7 {
         t.push(Tamper::ValueFromOtherAccount { other });
         for rekey in 0..3 {
             t.push(Tamper::OtherAccountProof { other, rekey });
@@ -677,18 +706,30 @@ fn catalogue(thorough: bool) -> Vec<Tamper> {
         t.push(Tamper::LeafLength { site });
         t.push(Tamper::LeafHash { site });
         t.push(Tamper::LeafMissing { site });
+        let bits: Vec<u8> = if thorough { (0..8).collect() } else { vec![2] };
         for byte in 0..3 {
-            t.push(Tamper::LeafPrefixFlip { site, byte });
+            for &bit in &bits {
+                t.push(Tamper::LeafPrefixFlip { site, byte, bit });
+            }
         }
-        for step in 0..3 {
+        for step in 0..(if thorough { 4 } else { 3 }) {
             t.push(Tamper::StepDrop { site, step });
             t.push(Tamper::StepDup { site, step });
             t.push(Tamper::StepSwap { site, step });
             t.push(Tamper::StepHashOp { site, step });
             let bytes: Vec<usize> = if thorough { (0..40).collect() } else { vec![0, 3, 4, 20, 32, 36] };
             for byte in bytes {
-                t.push(Tamper::StepFlip { site, step, wh: Where::Prefix, byte });
-                t.push(Tamper::StepFlip { site, step, wh: Where::Suffix, byte });
+                for &bit in &bits {
+                    t.push(Tamper::StepFlip { site, step, wh: Where::Prefix, byte, bit });
+                    t.push(Tamper::StepFlip { site, step, wh: Where::Suffix, byte, bit });
+                }
+            }
+        }
+    }
+    for op in 0..2 {
+        for with_target in [true, false] {
+            for compressed in [false, true] {
+                t.push(Tamper::BatchWrap { op, with_target, compressed });
             }
         }
     }
@@ -722,11 +763,39 @@ fn catalogue(thorough: bool) -> Vec<Tamper> {
 // ---------------------------------------------------------------------------------------
 // oracle
 
-fn exist_of(c: &CommitmentProof) -> Option<&ExistenceProof> {
-    match c.proof.as_ref()? {
-        Proof::Exist(e) => Some(e),
-        _ => None,
+/// Existence proofs a commitment offers for `key` (single proof, or matching batch entries).
+fn exist_candidates<'a>(c: &'a CommitmentProof, key: &[u8]) -> Vec<&'a ExistenceProof> {
+    match c.proof.as_ref() {
+        Some(Proof::Exist(e)) => vec![e],
+        Some(Proof::Batch(b)) => b
+            .entries
+            .iter()
+            .filter_map(|en| match en.proof.as_ref() {
+                Some(ics23::batch_entry::Proof::Exist(e)) if e.key == key => Some(e),
+                _ => None,
+            })
+            .collect(),
+        _ => vec![],
     }
+}
+
+fn nonexist_candidates(c: &CommitmentProof) -> Vec<&ics23::NonExistenceProof> {
+    match c.proof.as_ref() {
+        Some(Proof::Nonexist(n)) => vec![n],
+        Some(Proof::Batch(b)) => b
+            .entries
+            .iter()
+            .filter_map(|en| match en.proof.as_ref() {
+                Some(ics23::batch_entry::Proof::Nonexist(n)) => Some(n),
+                _ => None,
+            })
+            .collect(),
+        _ => vec![],
+    }
+}
+
+fn normalize(c: CommitmentProof) -> Option<CommitmentProof> {
+    if ics23::is_compressed(&c) { ics23::decompress(&c).ok() } else { Some(c) }
 }
 
 /// The amount the client may report for this answer, or None if the answer does not carry a
@@ -740,48 +809,46 @@ fn oracle_allows(w: &World, key: &[u8], resp: &RawAbciQueryResponse, app_hash: &
     }
     let k0 = spec_kind(&ops[0].r#type)?;
     let k1 = spec_kind(&ops[1].r#type)?;
-    let p0 = decode_commitment(&ops[0].data)?;
-    let p1 = decode_commitment(&ops[1].data)?;
-    let e1 = exist_of(&p1)?;
-    let bank_root = e1.value.clone();
-    if exist_root(k1, e1, b"bank", &bank_root)? != app_hash {
-        return None;
-    }
+    let p0 = normalize(decode_commitment(&ops[0].data)?)?;
+    let p1 = normalize(decode_commitment(&ops[1].data)?)?;
+    // multistore level: some offered proof links ("bank" -> bank root) to the app hash
+    let bank_root = exist_candidates(&p1, b"bank")
+        .into_iter()
+        .find(|e1| exist_root(k1, e1, b"bank", &e1.value).is_some_and(|r| r == app_hash))?
+        .value
+        .clone();
     if !resp.value.is_empty() {
-        let e0 = exist_of(&p0)?;
-        if exist_root(k0, e0, key, &resp.value)? != bank_root {
-            return None;
-        }
+        exist_candidates(&p0, key)
+            .into_iter()
+            .find(|e0| exist_root(k0, e0, key, &resp.value).is_some_and(|r| r == bank_root))?;
         std::str::from_utf8(&resp.value).ok()?.parse::<u64>().ok()
     } else {
-        let Some(Proof::Nonexist(n)) = p0.proof.as_ref() else { return None };
-        if n.left.is_none() && n.right.is_none() {
-            return None;
-        }
-        for e in [&n.left, &n.right].into_iter().flatten() {
-            if exist_root(k0, e, &e.key, &e.value)? != bank_root {
-                return None;
-            }
-        }
-        if n.left.as_ref().is_some_and(|l| l.key.as_slice() >= key) || n.right.as_ref().is_some_and(|r| r.key.as_slice() <= key) {
-            return None;
-        }
-        // adjacency, semantically: the proven root is the root of `w.bank` (checked by the
-        // caller through the app hash), so the neighbours are genuine entries; they are
-        // adjacent iff no entry of the store lies strictly between them
+        // adjacency is judged semantically: the proven root must be the root of `w.bank` (it
+        // is linked to the app hash above), so proven neighbours are genuine entries; they
+        // are adjacent iff no entry of the store lies strictly between them
         if bank_root != w.bank.root() {
             return None;
         }
-        let lo = n.left.as_ref().map(|l| l.key.clone());
-        let hi = n.right.as_ref().map(|r| r.key.clone());
-        let between = w
-            .bank
-            .leaves
-            .iter()
-            .any(|l| lo.as_ref().is_none_or(|lo| l.key > *lo) && hi.as_ref().is_none_or(|hi| l.key < *hi));
-        if between {
-            return None;
-        }
+        let good = |n: &ics23::NonExistenceProof| -> bool {
+            if n.left.is_none() && n.right.is_none() {
+                return false;
+            }
+            for e in [&n.left, &n.right].into_iter().flatten() {
+                if exist_root(k0, e, &e.key, &e.value).is_none_or(|r| r != bank_root) {
+                    return false;
+                }
+            }
+            if n.left.as_ref().is_some_and(|l| l.key.as_slice() >= key) || n.right.as_ref().is_some_and(|r| r.key.as_slice() <= key) {
+                return false;
+            }
+            let lo = n.left.as_ref().map(|l| l.key.clone());
+            let hi = n.right.as_ref().map(|r| r.key.clone());
+            !w.bank
+                .leaves
+                .iter()
+                .any(|l| lo.as_ref().is_none_or(|lo| l.key > *lo) && hi.as_ref().is_none_or(|hi| l.key < *hi))
+        };
+        nonexist_candidates(&p0).into_iter().find(|n| good(n))?;
         Some(0)
     }
 }
@@ -957,7 +1024,7 @@ fn main() {
         rep
     } else {
         let thorough = !ctx.quick();
-        let max_acc = if thorough { 6 } else { 4 };
+        let max_acc = if thorough { 7 } else { 4 };
         let store_sets: Vec<usize> = if thorough { (0..STORE_SETS.len()).collect() } else { vec![0, 1, 3, 4] };
         let cat = catalogue(thorough);
         let mut cases: Vec<Case> = vec![];
@@ -981,7 +1048,7 @@ fn main() {
         &ctx,
         rep,
         Spec {
-            rule: "worlds: bank store (IAVL-shaped, hand-built) of 1..4 (quick) / 1..6 (thorough) accounts x multistore (simple merkle) store sets {bank}, {auth,bank}, {auth,bank,staking}, {acc,bank,mint,staking} (+3 more in thorough) x target = every present account and an absent address in every gap x every applicable tamper of the catalogue (value digits/length/empty/other account's value; op keys; proof keys/values; other account's whole proof with 0/1/2 keys rewritten; per path step: byte flips in prefix/suffix, drop, duplicate, swap, hash op, extra step; leaf prefix bytes/marker/prehash/length/hash/missing; ops swapped/dropped/duplicated/absent/empty; spec names; undecodable/empty proof data; app hash bit flips / bank root / empty; non-zero code; absence forgeries: empty value without proof, with empty ops, with the key's own membership proof, with its neighbours, self as neighbour, dropped/swapped/skipped neighbours, key field, both sides missing, value with non-existence proof; answer of another height).  evaluation = one get_verified_balance call of the real client over the fake node; distinct = (world, target, tamper); non-trivial = tampered",
+            rule: "worlds: bank store (IAVL-shaped, hand-built) of 1..4 (quick) / 1..7 (thorough) accounts x multistore (simple merkle) store sets {bank}, {auth,bank}, {auth,bank,staking}, {acc,bank,mint,staking} (+3 more in thorough) x target = every present account and an absent address in every gap x every applicable tamper of the catalogue (value digits/length/empty/other account's value; op keys; proof keys/values; other account's whole proof with 0/1/2 keys rewritten; per path step: bit flips in prefix/suffix (quick: 6 byte positions x 1 bit; thorough: bytes 0..40 x 8 bits), drop, duplicate, swap, hash op, extra step; leaf prefix bytes/marker/prehash/length/hash/missing; ops swapped/dropped/duplicated/absent/empty; proof wrapped in a batch behind a decoy entry, with/without the genuine entry, plain/compressed; spec names; undecodable/empty proof data; app hash bit flips / bank root / empty; non-zero code; absence forgeries: empty value without proof, with empty ops, with the key's own membership proof, with its neighbours, self as neighbour, dropped/swapped/skipped neighbours, key field, both sides missing, value with non-existence proof; answer of another height).  evaluation = one get_verified_balance call of the real client over the fake node; distinct = (world, target, tamper); non-trivial = tampered",
             assumptions: &[
                 "honest proof chains are built by the harness and checked with ics23::verify_membership / verify_non_membership before use",
                 "the oracle recomputes the hash chain itself (sha256, ICS-23 leaf/inner images) and checks adjacency of non-existence neighbours against the committed store; it enforces leaf/inner domain separation but not the spec's prefix-length bounds",
